@@ -64,9 +64,11 @@ theorem facts_status_codes :
     Facts.Errors.defaultCode = internalCode := by decide
 
 /-- (regenerated facts) an optional request body counts as absent only when there is neither a Content-Type
-    header nor any body byte — the conjunction, not the disjunction -/
+    header nor any body byte — the conjunction, not the disjunction: the condition of the shortcut in the Go the
+    generator writes for a probe document is the `&&` of exactly these two conjuncts (go/ast, sorted; `<local>` is
+    the presence flag of the header lookup) -/
 theorem facts_optional_body :
-    Facts.Tmpl.optionalBodyShortcut = "if _, ok := r.Header[\"Content-Type\"]; !ok && r.ContentLength == 0 {" := by
+    Facts.Tmpl.optionalBodyShortcut = ["!<local>", "r.ContentLength == 0"] := by
   decide
 
 example : handle ⟨.found, true, false, none, .ok 200⟩ = ⟨[400], false⟩ := by decide
